@@ -87,3 +87,36 @@ Theorem C07_walker_generated_bodies_total : forall bodies elem src idxs d,
   else go_panic.
 Proof. exact gep_result_generated_bodies_total. Qed.
 Print Assumptions C07_walker_generated_bodies_total.
+
+(* ---- the index classifiers and the type functions around the walker, as regenerated ----
+   (Proofs/GepIndexRefinement.v; calls between regenerated bodies resolve in the caller's package: call_from / call_in)
+   getIndex of package constant and of package ir on every operand form of the model (integer constant, vector
+   constant splat or not, zeroinitializer, undef, poison, constant expression, plain value; inrange or not) give the
+   model's classification; gepExprType and gepInstType, and the Type() methods of the getelementptr expression and
+   instruction that call them, compute the model's type (classifier over the operands, vector length from the index
+   types, then the walker of C07_walker_generated); the parser's getIndex, gepInstType and gepExprType likewise on
+   AST operands whose integer texts parse.  This removes the hand models of the classifiers from the trusted base. *)
+From Coq Require Import String.
+From LLIR Require Proofs.GepIndexRefinement.
+Module GI := GepIndexRefinement.
+Theorem C07_generated_get_index_is_the_model : forall pkg f inrange c t, pkg = "constant"%string \/ pkg = "ir"%string ->
+  GI.read_result (GI.run_get_index pkg (S (S f)) (GI.reify_operand inrange c t)) = Gep.get_index_ir c.
+Proof. exact GI.generated_get_index_reads_as_model. Qed.
+Theorem C07_generated_gep_expr_type_is_the_model : forall f elem src ops,
+  GI.run_gep_expr_type (S (S (S f))) elem src ops = GepRefinement.expect (GI.gep_expr_type elem src ops).
+Proof. exact GI.generated_gep_expr_type_is_model. Qed.
+Theorem C07_generated_gep_inst_type_is_the_model : forall f elem src ops, Forall GI.well_named ops ->
+  GI.run_gep_inst_type (S (S (S f))) elem src ops = GepRefinement.expect (GI.gep_inst_type elem src ops).
+Proof. exact GI.generated_gep_inst_type_is_model. Qed.
+Theorem C07_generated_asm_get_index_is_the_model : forall f a, GI.valid a ->
+  GI.run_asm_get_index (S (S (S f))) (GI.reify_ast a) = GI.expect_idx (Gep.get_index_asm (GI.cform_of a)).
+Proof. exact GI.generated_asm_get_index_is_model. Qed.
+Theorem C07_generated_asm_gep_inst_type_is_the_model : forall f elem src ops, Forall GI.asm_well_formed ops ->
+  GI.run_gep_parse_type (S (S (S (S f)))) elem src ops = GI.expect_pair (GI.gep_parse_type elem src ops).
+Proof. exact GI.generated_asm_gep_inst_type_is_model. Qed.
+Theorem C07_generated_asm_gep_expr_type_is_the_model : forall f elem src ops, Forall GI.valid ops ->
+  GI.run_gep_alias_type (S (S (S (S f)))) elem src ops = GI.expect_pair (GI.gep_alias_type elem src ops).
+Proof. exact GI.generated_asm_gep_expr_type_is_model. Qed.
+Print Assumptions C07_generated_get_index_is_the_model.
+Print Assumptions C07_generated_gep_inst_type_is_the_model.
+Print Assumptions C07_generated_asm_gep_expr_type_is_the_model.
